@@ -16,6 +16,8 @@ pub enum Desc {
     /// `<DESC/>`
     EmptyTag,
     Text(String),
+    /// `<DESC><b>..</b> text</DESC>`: the description starts with child markup (read as "no description")
+    Markup(String),
 }
 #[derive(Debug, Clone, Hash, PartialEq, Eq, Serialize, Deserialize)]
 pub struct Pdu {
@@ -76,6 +78,10 @@ pub struct Layout {
     /// written as empty-element tags (`<MESSAGE_INFO/>`) instead of being left out
     #[serde(default)]
     pub empty_tags: bool,
+    /// further attributes around ID / ID-REF (names that end like them: OID, UUID, OID-REF), 0 = none, 1 = in front,
+    /// 2 = behind, 3 = both
+    #[serde(default)]
+    pub extra_attrs: u8,
 }
 
 // ------------------------------------------------------------------------------------------------
@@ -209,6 +215,7 @@ struct W {
     depth: usize,
     noise: u8,
     counter: u32,
+    extra_attrs: u8,
 }
 impl W {
     fn nl(&mut self) {
@@ -255,10 +262,12 @@ impl W {
     }
     fn reference(&mut self, tag: &str, target: &str, pairs: bool) {
         self.nl();
+        let front = if self.extra_attrs & 1 != 0 { " OID-REF=\"elsewhere\"" } else { "" };
+        let back = if self.extra_attrs & 2 != 0 { " DEST=\"X\"" } else { "" };
         if pairs {
-            self.s.push_str(&format!("<{} ID-REF=\"{}\"></{}>", tag, esc_attr(target), tag));
+            self.s.push_str(&format!("<{}{} ID-REF=\"{}\"{}></{}>", tag, front, esc_attr(target), back, tag));
         } else {
-            self.s.push_str(&format!("<{} ID-REF=\"{}\"/>", tag, esc_attr(target)));
+            self.s.push_str(&format!("<{}{} ID-REF=\"{}\"{}/>", tag, front, esc_attr(target), back));
         }
     }
 }
@@ -275,6 +284,13 @@ fn shuffled<T: Clone>(items: &[T], keys: &[u16], at: &mut usize) -> Vec<T> {
     *at += items.len();
     v.sort_by_key(|x| (x.0, x.1));
     v.into_iter().map(|x| x.2).collect()
+}
+
+/// the ID attribute of an id-carrying element, with unrelated attributes around it when the layout asks for them
+fn id_attr(l: &Layout, id: &str) -> String {
+    let front = if l.extra_attrs & 1 != 0 { " OID=\"oid-1\" UUID=\"0000-11\"" } else { "" };
+    let back = if l.extra_attrs & 2 != 0 { " xsi:type=\"fx:OTHER\" SID=\"9\"" } else { "" };
+    format!("{} ID=\"{}\"{}", front, esc_attr(id), back)
 }
 
 enum El<'a> {
@@ -332,7 +348,7 @@ pub fn render(m: &Model, l: &Layout) -> Vec<String> {
     let mut docs = vec![];
     let mut child_at = 0usize;
     for file in 0..files {
-        let mut w = W { s: String::new(), depth: 0, noise: st.noise, counter: file as u32 };
+        let mut w = W { s: String::new(), depth: 0, noise: st.noise, counter: file as u32, extra_attrs: l.extra_attrs };
         w.s.push_str("<?xml version=\"1.0\" encoding=\"UTF-8\"?>");
         let root = format!("{}FIBEX", st.fx);
         w.open(&root, " xmlns:ho=\"http://www.asam.net/xml\" xmlns:fx=\"http://www.asam.net/xml/fbx\"");
@@ -367,7 +383,7 @@ pub fn render(m: &Model, l: &Layout) -> Vec<String> {
             match &els[o.2] {
                 El::Coding((id, base)) => {
                     let t = format!("{}CODING", st.fx);
-                    w.open(&t, &format!(" ID=\"{}\"", esc_attr(id)));
+                    w.open(&t, &id_attr(l, id));
                     w.leaf(&format!("{}SHORT-NAME", st.ho), id);
                     w.nl();
                     if st.pairs {
@@ -379,7 +395,7 @@ pub fn render(m: &Model, l: &Layout) -> Vec<String> {
                 }
                 El::Signal((id, coding)) => {
                     let t = format!("{}SIGNAL", st.fx);
-                    w.open(&t, &format!(" ID=\"{}\"", esc_attr(id)));
+                    w.open(&t, &id_attr(l, id));
                     w.leaf(&format!("{}SHORT-NAME", st.ho), id);
                     // CODING-REF is only ever written as an empty element (the form FIBEX tools emit)
                     w.reference(&format!("{}CODING-REF", st.fx), coding, false);
@@ -387,7 +403,7 @@ pub fn render(m: &Model, l: &Layout) -> Vec<String> {
                 }
                 El::Pdu(p) => {
                     let t = format!("{}PDU", st.fx);
-                    w.open(&t, &format!(" ID=\"{}\"", esc_attr(&p.id)));
+                    w.open(&t, &id_attr(l, &p.id));
                     if let Some(n) = &p.short_name {
                         w.leaf(&format!("{}SHORT-NAME", st.ho), n);
                     } else if l.empty_tags {
@@ -405,6 +421,10 @@ pub fn render(m: &Model, l: &Layout) -> Vec<String> {
                             w.s.push_str(&format!("<{h}DESC/>", h = st.ho));
                         }
                         Desc::Text(d) => w.leaf(&format!("{}DESC", st.ho), d),
+                        Desc::Markup(d) => {
+                            w.nl();
+                            w.s.push_str(&format!("<{}DESC><b>{}</b> and text<br/></{}DESC>", st.ho, esc_text(d), st.ho));
+                        }
                     }
                     w.leaf(&format!("{}BYTE-LENGTH", st.fx), &p.byte_length.to_string());
                     w.leaf(&format!("{}PDU-TYPE", st.fx), "OTHER");
@@ -412,7 +432,7 @@ pub fn render(m: &Model, l: &Layout) -> Vec<String> {
                         w.open(&format!("{}SIGNAL-INSTANCES", st.fx), "");
                         for (k, (seq, r)) in shuffled(&p.signals, &l.child_keys, &mut child_at).iter().enumerate() {
                             let it = format!("{}SIGNAL-INSTANCE", st.fx);
-                            w.open(&it, &format!(" ID=\"SI_{}_{}\"", esc_attr(&p.id), k));
+                            w.open(&it, &id_attr(l, &format!("SI_{}_{}", p.id, k)));
                             if k % 2 == 0 {
                                 w.leaf(&format!("{}SEQUENCE-NUMBER", st.fx), &seq.to_string());
                                 w.reference(&format!("{}SIGNAL-REF", st.fx), r, st.pairs);
@@ -428,7 +448,7 @@ pub fn render(m: &Model, l: &Layout) -> Vec<String> {
                 }
                 El::Frame(f) => {
                     let t = format!("{}FRAME", st.fx);
-                    w.open(&t, &format!(" ID=\"{}\"", esc_attr(&f.id)));
+                    w.open(&t, &id_attr(l, &f.id));
                     w.leaf(&format!("{}SHORT-NAME", st.ho), &f.short_name);
                     w.leaf(&format!("{}BYTE-LENGTH", st.fx), &f.byte_length.to_string());
                     w.leaf(&format!("{}FRAME-TYPE", st.fx), "OTHER");
@@ -467,7 +487,7 @@ pub fn render(m: &Model, l: &Layout) -> Vec<String> {
                         w.open(&format!("{}PDU-INSTANCES", st.fx), "");
                         for (k, (seq, r)) in shuffled(&f.pdus, &l.child_keys, &mut child_at).iter().enumerate() {
                             let it = format!("{}PDU-INSTANCE", st.fx);
-                            w.open(&it, &format!(" ID=\"PI_{}_{}\"", esc_attr(&f.id), k));
+                            w.open(&it, &id_attr(l, &format!("PI_{}_{}", f.id, k)));
                             if k % 2 == 0 {
                                 w.reference(&format!("{}PDU-REF", st.fx), r, st.pairs);
                                 w.leaf(&format!("{}SEQUENCE-NUMBER", st.fx), &seq.to_string());
@@ -539,7 +559,7 @@ fn model_sized(large: bool) -> BoxedStrategy<Model> {
     (
         vec(prop_oneof![6 => prop::sample::select(BASE_TYPES.to_vec()).prop_map(|s| s.to_string()), 1 => Just("A_BITFIELD".to_string()), 1 => Just("A_FLOAT16".to_string())], n_codings),
         vec(0u8..8, n_signals),
-        vec((0u8..(pdu_ids + 3), prop::option::weighted(0.7, free_text()), prop_oneof![2 => Just(Desc::Absent), 1 => Just(Desc::Empty), 1 => Just(Desc::EmptyTag), 5 => free_text().prop_map(Desc::Text)], 0u32..64, vec((any::<u8>(), 0u8..32), n_sig_inst)), n_pdus),
+        vec((0u8..(pdu_ids + 3), prop::option::weighted(0.7, free_text()), prop_oneof![2 => Just(Desc::Absent), 1 => Just(Desc::Empty), 1 => Just(Desc::EmptyTag), 5 => free_text().prop_map(Desc::Text), 1 => free_text().prop_map(Desc::Markup)], 0u32..64, vec((any::<u8>(), 0u8..32), n_sig_inst)), n_pdus),
         vec(
             (
                 (prop_oneof![4 => 0u32..frame_ids, 1 => any::<u32>()], prop::bool::weighted(0.85)),
@@ -636,12 +656,12 @@ fn model_sized(large: bool) -> BoxedStrategy<Model> {
 }
 
 pub fn layout() -> BoxedStrategy<Layout> {
-    (1u8..=4, vec((0u8..4, any::<u16>()), 40), vec(any::<u16>(), 1..24), 0u8..4, any::<bool>(), 0u8..3, prop::bool::weighted(0.3), prop::bool::weighted(0.25))
-        .prop_map(|(files, assign, child_keys, prefix_style, refs_as_pairs, noise, ecu_block, empty_tags)| Layout { files, assign, child_keys, prefix_style, refs_as_pairs, noise, ecu_block, empty_tags })
+    (1u8..=4, vec((0u8..4, any::<u16>()), 40), vec(any::<u16>(), 1..24), 0u8..4, any::<bool>(), 0u8..3, prop::bool::weighted(0.3), prop::bool::weighted(0.25), prop_oneof![3 => Just(0u8), 1 => 1u8..4])
+        .prop_map(|(files, assign, child_keys, prefix_style, refs_as_pairs, noise, ecu_block, empty_tags, extra_attrs)| Layout { files, assign, child_keys, prefix_style, refs_as_pairs, noise, ecu_block, empty_tags, extra_attrs })
         .boxed()
 }
 
 /// the canonical layout: one file, definition order, sample-file style
 pub fn plain_layout() -> Layout {
-    Layout { files: 1, assign: vec![], child_keys: vec![], prefix_style: 0, refs_as_pairs: false, noise: 1, ecu_block: false, empty_tags: false }
+    Layout { files: 1, assign: vec![], child_keys: vec![], prefix_style: 0, refs_as_pairs: false, noise: 1, ecu_block: false, empty_tags: false, extra_attrs: 0 }
 }
